@@ -42,7 +42,7 @@ register(
         "GtModel.C01.mset_accounts",
         "GtModel.C01.mset_children_length",
     ],
-    streams=["script", "scriptx", "scriptxml", "scriptmset", "script_O", "numeq"],
+    streams=["script", "scriptx", "scriptxml", "scriptmset", "script_O", "numeq", "dataclass"],
     assumptions=[
         "Tree.KeysDistinct: no mapping holds a key twice (true of every tree built from a Python dict: "
         "GtModel.C01.build_keysDistinct); needed only for the to-side of MultiSetEdit / FixedKeyDictNodeEdit",
